@@ -145,6 +145,8 @@ def run(ctx, job):
             return {"cls": "VE"}
         ctx.expect("rename-clash-rejected", not clash, info=f"{src}->{tgt}")
         ins, outs = well_formed(ctx, c, "rename-")
+        oi, oo = well_formed(ctx, c1, "rename-operand-")
+        ctx.expect("rename-leaves-operand-interface", oi == i1 and oo == o1, info=f"{src}->{tgt}: {oi} {oo}")
 
         def ren(lst):
             if src == tgt or src not in lst:
@@ -204,6 +206,9 @@ def run(ctx, job):
         return {"cls": B.classify(e)}
     ctx.expect("meaningless-request-rejected", ref is not None, info=f"request={request}")
     ins, outs = well_formed(ctx, r, op + "-")
+    for name, c, (ci, co) in (("first", c1, (i1, o1)), ("second", c2, (i2, o2))):
+        xi, xo = well_formed(ctx, c, op + "-operand-")
+        ctx.expect("operands-keep-their-interface", xi == ci and xo == co, info=f"{name}: {xi} {xo}")
     if ref is not None:
         ctx.expect("interface-as-prescribed", set(ins) == set(ref[0]) and set(outs) == set(ref[1]), info=f"request={request}: in={ins} out={outs} expected in={ref[0]} out={ref[1]}")
     return {"cls": "OK", "res": {"cmp": [ins, outs]}}
